@@ -77,11 +77,28 @@ fn main() {
         part: Part::new(&prop, "seq", seed, rule),
         feeder: false,
         mixed_kind_names: Vec::new(),
+        case_tag: 0,
     };
-    std::panic::set_hook(Box::new(|_| {}));
+    // remember where the last panic came from: a panic inside the library is a finding, one inside the harness is not
+    static LAST_PANIC: std::sync::Mutex<Option<(String, u32, String)>> = std::sync::Mutex::new(None);
+    std::panic::set_hook(Box::new(|info| {
+        let (file, line) = info.location().map(|l| (l.file().to_string(), l.line())).unwrap_or_default();
+        let msg = info.payload().downcast_ref::<&str>().map(|s| s.to_string()).or_else(|| info.payload().downcast_ref::<String>().cloned()).unwrap_or_default();
+        *LAST_PANIC.lock().unwrap_or_else(|e| e.into_inner()) = Some((file, line, msg));
+    }));
     for case in first..first + cases {
         cx.case = case;
-        run_case(&mut cx);
+        let r = std::panic::catch_unwind(std::panic::AssertUnwindSafe(|| run_case(&mut cx)));
+        if r.is_err() {
+            let (file, line, msg) = LAST_PANIC.lock().unwrap_or_else(|e| e.into_inner()).clone().unwrap_or_default();
+            if file.starts_with("/repo/") {
+                let site = file.trim_start_matches("/repo/").to_string();
+                cx.violation("library-panicked", &site, format!("the library panicked at {}:{} while the monitors drove it with generated input: {}", file, line, msg), vcore::json::Json::Null);
+            } else {
+                cx.part.inconclusive = Some(format!("harness panic at {}:{}: {}", file, line, msg));
+                break;
+            }
+        }
     }
     if let Some(out) = m.get("out") {
         cx.part.write(out);
